@@ -18,6 +18,11 @@ through an `Iface W`), extended with what this code needs:
 * SQL expression values (`Sql`): what `cls.q.id == other.q.id`, `parent.q.childName == name`, `getattr(cls.q, name) ==
   value`, `sqlbuilder.AND(a, b)`, `sqlbuilder.IN(cls.q.id, ids)`, `reduce(sqlbuilder.AND, list[, init])` build;
 * `x.update(dict([(k, v) for (a, b) in it if c]))` on a dict local (`updatePairs`);
+* nested functions (`def f(p): …` inside the translated function, reading locals of the enclosing function): translated
+  as blocks of their own whose parameters are `p` and then the captured locals; a call `f(arg)` goes through
+  `Iface.proc` and writes the final value of `p` back to `arg` (`procCall`: Python changes the argument object in place;
+  sound when that object is not shared); `x.a = e` on such a parameter is `setAttrVar`; `d.pop(k, dflt)`;
+  calls with `*args` (`callV`, `superCallV`);
 * `e1 or e2` as a VALUE, `str(e)`, `getattr(e, name[, default])`;
 * PURE calls (module functions / methods that only read: `tablesUsedSet(clause, db)`, `classregistry.registry(r)`,
   `r.allClasses()`, `findClass(name, registry)`, `klass.select(…)` building a select object, `dbconn.queryForSelect`) go
@@ -144,6 +149,11 @@ structure Iface (W : Type) where
   callFn : W → Val → List Val → List (String × Val) → Val → CallRes W
   super : W → String → List Val → List (String × Val) → Val → CallRes W
   fuel : W → Nat
+  /-- a call of a NESTED function of the translated function (`def f(p): …` inside it): `proc name (p :: captured)`
+      gives the final value of the parameter `p` and the return value (nested functions of the fragment are pure) -/
+  proc : String → List Val → R (Val × Val) := fun _ _ => .stuck
+  /-- `v.a = x` for an immutable VALUE `v` held by a local (an SQL expression): the updated value -/
+  updVal : Val → List String → Val → Option Val := fun _ _ _ => Option.none
 
 /-! ### container values -/
 
@@ -314,6 +324,11 @@ inductive Cond where
   | and (c d : Cond)
   | or (c d : Cond)
 
+/-- where the argument of a nested-function call lives: a local, or an attribute of the value a local holds -/
+inductive Place where
+  | pvar (x : Nat)
+  | pattr (x : Nat) (path : List String)
+
 mutual
 inductive Stmt where
   | assign (x : Nat) (e : Expr)
@@ -323,6 +338,18 @@ inductive Stmt where
   | setAdd (x : Nat) (e : Expr)                              -- `x.add(e)`
   | setUpdate (x : Nat) (e : Expr)                           -- `x.update(e)`
   | append (x : Nat) (e : Expr)                              -- `x.append(e)`
+  /-- `x = d.pop(k, dflt)`, dict local `d` -/
+  | dictPop (x d : Nat) (k dflt : Expr)
+  /-- `x.a = e` for a local `x` that holds an immutable value (in-out parameter of a nested function) -/
+  | setAttrVar (x : Nat) (path : List String) (e : Expr)
+  /-- `[x =] f(arg)` for a nested function `f`; `caps`: the enclosing function's locals `f` reads.  The argument's final
+      value is written back to where it came from (Python: `f` changes the object in place; the object has one owner) -/
+  | procCall (x : Option Nat) (f : String) (arg : Place) (caps : List Expr)
+  /-- `recv.m(args, k=v, *vstar, **star)` -/
+  | callV (x : Option Nat) (recv : Expr) (m : String) (args : List Expr) (vstar : Expr) (kwn : List String)
+      (kwv : List Expr) (star : Option Expr)
+  | superCallV (x : Option Nat) (m : String) (args : List Expr) (vstar : Expr) (kwn : List String) (kwv : List Expr)
+      (star : Option Expr)
   /-- `x.update(dict([(k, v) for (a, b) in it if c]))`, dict local `x`; `a`, `b` are the comprehension's own variables -/
   | updatePairs (x a b : Nat) (it : Expr) (c : Cond) (k v : Expr)
   | attrSetItem (obj : Expr) (path : List String) (k v : Expr)   -- `obj.a[k] = v`
@@ -573,6 +600,22 @@ def updPairs {W : Type} (I : Iface W) (w : W) (env : Env) (a b : Nat) (c : Cond)
       else updPairs I w env a b c k v l d
   | _ :: _, _ => .stuck
 
+def Place.read {W : Type} (I : Iface W) (w : W) (env : Env) : Place → R Val
+  | .pvar x => R.ofOpt (env x)
+  | .pattr x path => (R.ofOpt (env x)).bind fun v => I.attrOf w v path
+
+def Place.write {W : Type} (I : Iface W) (env : Env) (v : Val) : Place → Option Env
+  | .pvar x => some (env.put x v)
+  | .pattr x path => match env x with
+    | some o => (I.updVal o path v).map fun o' => env.put x o'
+    | Option.none => Option.none
+
+/-- positional arguments followed by the elements of `*vstar` -/
+def evalArgsV {W : Type} (I : Iface W) (w : W) (env : Env) (args : List Expr) (vstar : Expr) (kwn : List String)
+    (kwv : List Expr) (star : Option Expr) : R Args :=
+  (evalArgs I w env args kwn kwv star).bind fun a => (vstar.eval I w env).bind fun vs =>
+    (R.ofOpt vs.toList).bind fun l => .ok { a with pos := a.pos ++ l }
+
 mutual
 def Stmt.exec {W : Type} (I : Iface W) (cur : Option Exc) (st : St W) : Stmt → Res W
   | .assign x e => withR st (e.eval I st.w st.env) fun v => .norm (st.setVar x v)
@@ -587,6 +630,19 @@ def Stmt.exec {W : Type} (I : Iface W) (cur : Option Exc) (st : St W) : Stmt →
   | .updatePairs x a b it c k v => withList st x fun d => withR st (it.eval I st.w st.env) fun itv =>
       withR st (R.ofOpt itv.toList) fun l => withR st (updPairs I st.w st.env a b c k v l d) fun d' =>
         .norm (st.setVar x d')
+  | .dictPop x d k dflt => withList st d fun dv => withR st (eval2 I st.w st.env k dflt) fun p =>
+      .norm ((st.setVar x ((vdGet p.1 dv).getD p.2)).setVar d (vdDel p.1 dv))
+  | .setAttrVar x path e => withR st (R.ofOpt (st.env x)) fun o => withR st (e.eval I st.w st.env) fun v =>
+      withR st (R.ofOpt (I.updVal o path v)) fun o' => .norm (st.setVar x o')
+  | .procCall x f arg caps => withR st (arg.read I st.w st.env) fun av =>
+      withR st (Expr.evalList I st.w st.env caps) fun cs => withR st (I.proc f (av :: cs)) fun r =>
+        withR st (R.ofOpt (arg.write I st.env r.1)) fun env' => .norm ({ st with env := env' }.setOpt x r.2)
+  | .callV x recv m args vstar kwn kwv star =>
+    withR st (recv.eval I st.w st.env) fun r => withR st (evalArgsV I st.w st.env args vstar kwn kwv star) fun a =>
+      afterCall (I.call st.w r m a.pos a.kw a.star) st x
+  | .superCallV x m args vstar kwn kwv star =>
+    withR st (evalArgsV I st.w st.env args vstar kwn kwv star) fun a =>
+      afterCall (I.super st.w m a.pos a.kw a.star) st x
   | .append x e => withList st x fun d => withR st (e.eval I st.w st.env) fun v => .norm (st.setVar x (vlAppend v d))
   | .attrSetItem obj path k v => withR st (obj.eval I st.w st.env) fun o => withR st (I.attrOf st.w o path) fun d =>
       withR st (eval2 I st.w st.env k v) fun p =>
@@ -635,6 +691,14 @@ def Res.toCall {W : Type} : Res W → CallRes W
   | .cont _ => .stuck
   | .brk _ => .stuck
   | .stuck => .stuck
+
+/-- run a nested function (pure: the world `w` is only read): final value of its first parameter, return value -/
+def runProc {W : Type} (I : Iface W) (prog : Block) (args : List Val) (w : W) : R (Val × Val) :=
+  match prog.exec I Option.none { w := w, env := Env.ofArgs args 0 } with
+  | .norm st => (R.ofOpt (st.env 0)).bind fun p => .ok (p, .none)
+  | .ret st v => (R.ofOpt (st.env 0)).bind fun p => .ok (p, v)
+  | .exc _ e => .exc e
+  | _ => .stuck
 
 /-- call a method: `args` are the parameters after `self` / `cls` (a `**kw` parameter: the dict value) -/
 def run {W : Type} (I : Iface W) (prog : Block) (args : List Val) (w : W) : CallRes W :=
